@@ -119,6 +119,8 @@ def replay(ctx, path):
     d = json.load(open(path))
     drv = build(ctx)
     e = d["event"]
+    if e.get("e") == "Fault":
+        return core.replay_fault(ctx, d, drv, "StdlibTrace", path)
     if e["e"] == "Strto": ln = "Strto %s %s %d" % (e["fn"], fmt(e["text"]), e["base"])
     elif e["e"] == "Qsort": ln = "Qsort %d %d %s" % (e["size"], e["div"], fmt(e["keys"]))
     else: ln = "Bsearch %d %d %s %d" % (e["size"], e["div"], fmt(e["keys"]), e["key"])
